@@ -51,6 +51,8 @@ def c10_case(draw, nmax=60):
     order = draw(st.sampled_from(["0", "1", "2", "3", "3", "user"]))
     if m != n and order in ("2", "0"): order = draw(st.sampled_from(["1", "3"]))
     s["order"] = order
+    if m == n and s["symm"] == 0 and draw(st.integers(0, 2)) == 0:
+        s["init_prec"] = draw(st.sampled_from(["s", "d", "c", "z"]))      # also through the public entry point p?gstrf_init
     case = {"set": s, "entries": ent, "family": fam}
     if order == "user": case["pc"] = [int(x) for x in rng.permutation(n)]
     if not ent: case["entries"] = []
@@ -69,6 +71,7 @@ def classify(case, v):
     s = case["set"]
     labs = ["family=" + case["family"], "order=" + s["order"], "symm=%d" % s["symm"], "shape=" + ("square" if s["m"] == s["n"] else "tall"),
             "n>100" if s["n"] > 100 else "n<=100", "verdict=" + v.get("v", "?")]
+    if s.get("init_prec"): labs.append("via_p%sgstrf_init" % s["init_prec"])
     if v.get("v") == "fail": labs.append("sig=" + v.get("sig", ""))
     return labs
 
